@@ -356,9 +356,8 @@ impl Case {
     fn release(&mut self, r: usize, site: &'static str) -> Arr {
         // bookkeeping of the action that is performed now
         match site {
-            "exec.state.start_scheduling" => self.roles[r].in_sched = true,
+            "exec.remote.enter" | "exec.state.start_scheduling" => self.roles[r].in_sched = true,
             "exec.state.finish_scheduling" => {
-                self.roles[r].in_sched = false;
                 self.roles[r].in_window = false;
                 for (i, o) in self.roles.iter_mut().enumerate() {
                     if i != r && o.in_sched {
@@ -366,6 +365,7 @@ impl Case {
                     }
                 }
             }
+            "exec.remote.leave" => self.roles[r].in_sched = false,
             "exec.state.start_setting_waker" => self.in_setting = true,
             "exec.state.finish_setting_waker" => self.in_setting = false,
             "exec.state.finish_running" => {
@@ -428,7 +428,7 @@ impl Case {
                     parked += 1;
                     let before = p.site;
                     let a = self.release(r, before);
-                    let same = matches!(a, Arr::Site(s) if s == before && s == "exec.state.load");
+                    let same = matches!(a, Arr::Site(s) if s == before && matches!(s, "exec.state.load" | "exec.task.wait_spin"));
                     if !same {
                         progressed = true;
                     }
